@@ -494,6 +494,32 @@ static void run(const Case &c, Ctx &ctx) {
         if (have_list) aws_array_list_clean_up(&plist);
         PBT_CHECK(rc == AWS_OP_SUCCESS, "builder for \"%s\" failed with %s", T, aws_error_name(err));
         Expect eb = e;
+        if (mode == M_BUILD_PARAMS && !build_params.empty()) {
+            // How a pair is written is the builder's choice as long as it reads back as that pair ("k=" and "k" both mean
+            // (k, "")): the query text is taken from the result, after checking that it is '&'-joined renderings of the pairs.
+            std::string prefix = (has_scheme ? scheme + "://" : "") + authority + path + "?";
+            std::string got((const char *)u.uri_str.buffer, u.uri_str.buffer ? u.uri_str.len : 0);
+            PBT_CHECK(got.size() > prefix.size() && got.compare(0, prefix.size(), prefix) == 0, "build \"%s\": the builder produced \"%s\"", T, got.c_str());
+            std::string q = got.substr(prefix.size());
+            std::vector<std::string> pieces;
+            for (size_t pos = 0;;) {
+                size_t amp = q.find('&', pos);
+                pieces.push_back(q.substr(pos, amp == std::string::npos ? std::string::npos : amp - pos));
+                if (amp == std::string::npos) break;
+                pos = amp + 1;
+            }
+            PBT_CHECK(pieces.size() == build_params.size(), "build \"%s\": %zu parameters given, query \"%s\" has %zu pieces", T, build_params.size(), q.c_str(),
+                      pieces.size());
+            for (size_t i = 0; i < pieces.size(); i++) {
+                const KV &kv = build_params[i];
+                bool ok = pieces[i] == kv.first + "=" + kv.second || (kv.second.empty() && !kv.first.empty() && pieces[i] == kv.first);
+                PBT_CHECK(ok, "build \"%s\": parameter %zu (\"%s\", \"%s\") was written as \"%s\"", T, i, kv.first.c_str(), kv.second.c_str(), pieces[i].c_str());
+            }
+            eb.query = q;
+            eb.path_and_query = path + "?" + q;
+            eb.text = prefix + q;
+            if (q != query) ctx.tag("builder_pair_without_equals");
+        }
         if (mode == M_BUILD_PARAMS && build_params.empty() && u.uri_str.len == e.text.size() + 1 && u.uri_str.buffer[e.text.size()] == '?') {
             // an empty (non-NULL) parameter list: the builder may or may not append a bare '?'; both texts mean "no parameters"
             eb.text += "?";
